@@ -313,13 +313,23 @@ namespace vd
         g_clock.reset();
         std::unique_ptr<vm> v;
         bool per_case_vm = req["fresh_vm"].boolean(false);
-        if (!per_case_vm) v = make_vm(0, c);
+        g_clock.tick_us = req["tick_us"].i64(0);
+        auto setup = [&](vm& m) {
+            if (req.has("maps")) for (size_t k = 0; k < req["maps"].size(); k++) m.rt->fileio().add_mapping(req["maps"][k][0].str(), req["maps"][k][1].str());
+            if (req.has("config"))
+            {
+                fileio::pathinfo cpi(std::string("config.cpp"), std::string("config.cpp"));
+                m.rt->parser_config().parse(m.rt->confighost(), req["config"].str(), cpi);
+            }
+        };
+        if (!per_case_vm) { v = make_vm(0, c); setup(*v); }
         install_hooks(false, false, 0);
         auto out = js::val::array();
         auto& texts = req["texts"];
         for (size_t i = 0; i < texts.size(); i++)
         {
-            if (per_case_vm) v = make_vm(0, c);
+            if (per_case_vm) { v = make_vm(0, c); setup(*v); }
+            v->rt->runtime_timestamp_reset();   // each text is a run of its own
             g_log.clear();
             auto o = js::val::object();
             fileio::pathinfo pi(std::string("e.sqf"), std::string("e.sqf"));
